@@ -9,6 +9,7 @@ import (
 	"sort"
 	"strconv"
 	"strings"
+	"sync"
 
 	"golang.org/x/tools/go/ssa"
 )
@@ -17,23 +18,25 @@ type intrinsicFn func(m *Machine, g *G, fr *Frame, in ssa.Instruction, args []Va
 
 var intrinsics = map[string]intrinsicFn{}
 
+var intrNameCache sync.Map
+
 func intrinsicName(f *ssa.Function) string {
-	if len(f.Blocks) == 0 && strings.HasPrefix(f.Name(), "verif") && f.Signature.Recv() == nil {
-		return f.Name()
+	if n, ok := intrNameCache.Load(f); ok {
+		return n.(string)
 	}
-	return f.String()
+	n := f.String()
+	if len(f.Blocks) == 0 && strings.HasPrefix(f.Name(), "verif") && f.Signature.Recv() == nil {
+		n = f.Name()
+	}
+	intrNameCache.Store(f, n)
+	return n
 }
 
 func (m *Machine) lookupIntrinsic(f *ssa.Function) intrinsicFn {
 	name := intrinsicName(f)
 	fn := intrinsics[name]
-	if fn != nil {
-		ex := m.ex.ex
-		if !strings.HasPrefix(name, "verif") {
-			ex.mu.Lock()
-			ex.intrUsed[name] = true
-			ex.mu.Unlock()
-		}
+	if fn != nil && !strings.HasPrefix(name, "verif") {
+		m.ex.note("intr", name)
 	}
 	return fn
 }
@@ -83,9 +86,7 @@ func init() {
 		if n <= 0 {
 			m.fail("infeasible", "verifChoice with empty range")
 		}
-		m.ex.ex.mu.Lock()
-		m.ex.ex.caseSplit[a[0].(string)] = true
-		m.ex.ex.mu.Unlock()
+		m.ex.note("split", a[0].(string))
 		return int64(m.ex.choose(m, int(n), "verifChoice "+a[0].(string)))
 	})
 	R("verifNumStr", func(m *Machine, a []Value) Value {
@@ -318,6 +319,7 @@ func init() {
 		ss := m.strs(s)
 		sort.Strings(ss)
 		for i := range ss {
+			m.touch(&s.A[i])
 			s.A[i] = ss[i]
 		}
 		return nil
@@ -447,12 +449,7 @@ func init() {
 	R("context.TODO", func(m *Machine, a []Value) Value { return m.opaqueIface("context", "emptyCtx", "todo") })
 }
 
-func (m *Machine) noteSymbolic(name string) {
-	ex := m.ex.ex
-	ex.mu.Lock()
-	ex.symbolicToEnd[name] = true
-	ex.mu.Unlock()
-}
+func (m *Machine) noteSymbolic(name string) { m.ex.note("sym", name) }
 
 func (e *Explorer) noteAssumption(s string) {
 	e.mu.Lock()
